@@ -9,7 +9,7 @@ TRUSTED = [
     "translate/rawconsts.py (RawConsts.hpp sep_table/q_table -> Gen/RawConsts.lean), tied to the model's predicates by Proofs/RawConsts.lean",
     "hooks/decktext.patch (add-only OPM_COMMON_VERIF wrappers at the end of Parser.cpp exporting the anonymous-namespace lexer)",
     "harness/deck.cpp + harness/deckprop.cpp, the differ, the compiled model driver",
-    "modelled, not verified: boost::spirit::qi number conversion (a parameter `Conv` of the model; the driver's stand-in recognisers are compared with qi on random tokens), ostream double formatting (parameter `fmt`), ParseContext policy dispatch, INCLUDE path lookup, keyword assembly over lines (RawKeyword size classes; exercised by property mode on the real parser only)",
+    "modelled, not verified: boost::spirit::qi number conversion (a parameter `Conv` of the model; the driver's stand-in recognisers are compared with qi on random tokens), ostream double formatting (parameter `fmt`), ParseContext policy dispatch, INCLUDE path lookup (std::filesystem::canonical: every spelling of a path names one file - a parameter of the input stack model IncStack, exercised by property mode with five spellings and PATHS aliases), keyword assembly over lines (RawKeyword size classes; exercised by property mode on the real parser only)",
 ]
 
 
